@@ -221,7 +221,7 @@ func (sim) Generate(prop, tier string, seed uint64) *core.Plan {
 			}
 		case "chpass":
 			m, kk := mode()
-			a = []int64{int64(r.Intn(2)), int64(r.Intn(4)), m, kk, int64(r.Intn(3))}
+			a = []int64{int64(r.Intn(2)), int64(r.Intn(4)), m, kk}
 			if prop == "C08" {
 				// Passphrases are not among the things property C08 compares
 				// across a restart; a rolled-back change belongs to C10.
@@ -337,7 +337,6 @@ var probesByProp = map[string][]string{
 		"image-with-freed-pages", "imported-xpub-account", "custom-scope", "crash-restart"},
 	"C05": {"failed-unlock-while-unlocked", "lock-with-cached-derived-key", "lock-with-script-address-loaded",
 		"memory-check-after-lock", "memory-check-after-failed-unlock", "passphrase-change-while-locked",
-		"unlock-new-passphrase-while-still-unlocked", "unlock-right-while-unlocked",
 		"passphrase-change-while-unlocked", "old-public-passphrase-after-restart", "watch-only-conversion",
 		"derived-while-locked-then-unlocked", "imported-xpub-account", "restart"},
 	"C08": {"dry-run-then-real", "rename-then-lookup-old-and-new", "markused-then-cached-read",
